@@ -427,8 +427,13 @@ def run(rep):
     mstat, mbad = macro_stage(rep, rng, sc, 400 if rep.tier == 'quick' else 20000)
     # the buffer all of these strings are built in, against its index-level model and the append statement (tools/lbuf.py; C07 runs the long form)
     bstage = lbuf.stage(rep, sc, random.Random(rep.seed * 7919 + 12), 700 if rep.tier == 'quick' else 6000, big=False)
+    # an interpolated move destination combined with flag actions of the same rule, on the real binary (tools/c12merge.py; F26)
+    import proc
+    import c12merge
+    mgstat = c12merge.stage(rep, proc.Tools(sc))
     vlib.lean_conclude(rep)
     rep.coverage.update({
+        'move_flag_merge': mgstat,
         'macro_expansion': mstat,
         'macro_spec_failures': len(mbad),
         'macro_rule': 'C12_macros: strings over `$ { } ${name} ${path} ${nosuch} ${` in each of the 11 string positions of the grammar (move, label, '
